@@ -116,14 +116,22 @@ type runFns struct {
 type tgtHandle interface {
 	// mid: the successor of the mappings is a middle node (a stream-transparent identity lambda of
 	// type T whose output goes to END by a plain edge) instead of END itself
-	build(mid bool, add func(wf wfAPI, succ *compose.WorkflowNode)) (*runFns, error)
+	// inv: the middle node is an ordinary (invokable) node: in Stream execution the engine concatenates the
+	// converted chunks into one input value before it calls the node
+	build(mid, inv bool, add func(wf wfAPI, succ *compose.WorkflowNode)) (*runFns, error)
 }
 type tgtOf[T any] struct{}
 
-func (tgtOf[T]) build(mid bool, add func(wf wfAPI, succ *compose.WorkflowNode)) (*runFns, error) {
+func (tgtOf[T]) build(mid, inv bool, add func(wf wfAPI, succ *compose.WorkflowNode)) (*runFns, error) {
 	ctx := context.Background()
 	wf := compose.NewWorkflow[int, T]()
-	if mid {
+	if mid && inv {
+		succ := wf.AddLambdaNode("mid", compose.InvokableLambda(func(ctx context.Context, in T) (T, error) {
+			return in, nil
+		}))
+		add(wf, succ)
+		wf.End().AddInput("mid")
+	} else if mid {
 		succ := wf.AddLambdaNode("mid", compose.TransformableLambda(func(ctx context.Context, in *schema.StreamReader[T]) (*schema.StreamReader[T], error) {
 			return in, nil
 		}))
@@ -192,6 +200,10 @@ var srcHandles = map[string]srcHandle{
 	"Emb":                       srcOf[Emb]{},
 	"*Emb":                      srcOf[*Emb]{},
 	"map[string]Emb":            srcOf[map[string]Emb]{},
+	// opaque leaf types (arrays, slices): direct oracle only, not in the model's universe
+	"map[string][2]int":  srcOf[map[string][2]int]{},
+	"map[string]*[2]int": srcOf[map[string]*[2]int]{},
+	"map[string][]int":   srcOf[map[string][]int]{},
 }
 
 var tgtHandles = map[string]tgtHandle{
@@ -220,6 +232,11 @@ var tgtHandles = map[string]tgtHandle{
 	"map[string]Emb":            tgtOf[map[string]Emb]{},
 	"map[string]*Emb":           tgtOf[map[string]*Emb]{},
 	"EmbU":                      tgtOf[EmbU]{},
+	"[2]int":                    tgtOf[[2]int]{},
+	"*[2]int":                   tgtOf[*[2]int]{},
+	"[]int":                     tgtOf[[]int]{},
+	"map[string][2]int":         tgtOf[map[string][2]int]{},
+	"map[string]*[2]int":        tgtOf[map[string]*[2]int]{},
 }
 
 // the Go value of a static value: an `any` holding the value of its dynamic type (invalid = nil)
@@ -265,6 +282,10 @@ type outcome struct {
 	StrVals []*V     `json:"stream_vals,omitempty"`
 	StrMsg  string   `json:"stream_msg,omitempty"`
 	SrcMod  []string `json:"source_modified,omitempty"`
+	// Stream with an ordinary (invokable) successor node: the concatenation of the converted chunks
+	Concat string `json:"concat,omitempty"` // "" (not run) | ok | err | panic | hang
+	ConVal *V     `json:"concat_val,omitempty"`
+	ConMsg string `json:"concat_msg,omitempty"`
 }
 
 func classifyCompileErr(err error) string {
@@ -394,7 +415,7 @@ func execute(c *Case) *outcome {
 	bsI, addI := mk(false)
 	var fns *runFns
 	var cerr error
-	if p, hung := withWatchdog(func() { fns, cerr = th.build(c.Mid, addI) }); p != nil || hung {
+	if p, hung := withWatchdog(func() { fns, cerr = th.build(c.Mid, false, addI) }); p != nil || hung {
 		o.Compile, o.CompMsg = "panic", firstLine(fmt.Sprint(p))
 		return o
 	}
@@ -421,7 +442,7 @@ func execute(c *Case) *outcome {
 	// --- Stream on a separately compiled workflow (sources stream their chunks)
 	bsS, addS := mk(true)
 	var fnsS *runFns
-	if p, hung := withWatchdog(func() { fnsS, cerr = th.build(c.Mid, addS) }); p != nil || hung || cerr != nil {
+	if p, hung := withWatchdog(func() { fnsS, cerr = th.build(c.Mid, false, addS) }); p != nil || hung || cerr != nil {
 		o.Stream, o.StrMsg = "panic", "second compile differs: "+firstLine(fmt.Sprint(p, cerr))
 		return o
 	}
@@ -442,6 +463,31 @@ func execute(c *Case) *outcome {
 		o.StrVals = sortVs(o.StrVals)
 	}
 	checkSrc(bsS, "stream")
+
+	// --- Stream into an ordinary (invokable) successor: the engine concatenates the converted chunks
+	if c.Mid {
+		bsC, addC := mk(true)
+		var fnsC *runFns
+		if p, hung := withWatchdog(func() { fnsC, cerr = th.build(true, true, addC) }); p != nil || hung || cerr != nil {
+			o.Concat, o.ConMsg = "panic", "third compile differs: "+firstLine(fmt.Sprint(p, cerr))
+			return o
+		}
+		var rvs []reflect.Value
+		p, hung = withWatchdog(func() { rvs, rerr = fnsC.stream() })
+		switch {
+		case hung:
+			o.Concat = "hang"
+		case p != nil:
+			o.Concat, o.ConMsg = "panic", firstLine(fmt.Sprint(p))
+		case rerr != nil:
+			o.Concat, o.ConMsg = "err", firstLine(strings.ReplaceAll(rerr.Error(), "\n", " | "))
+		case len(rvs) != 1:
+			o.Concat, o.ConMsg = "err", fmt.Sprintf("an invokable node produced %d chunks", len(rvs))
+		default:
+			o.Concat, o.ConVal = "ok", render(rvs[0])
+		}
+		checkSrc(bsC, "stream-concat")
+	}
 	return o
 }
 
@@ -454,6 +500,10 @@ func (o *outcome) key() string {
 	b.WriteString("|" + o.Stream)
 	for _, v := range o.StrVals {
 		b.WriteString(";" + v.String())
+	}
+	b.WriteString("|" + o.Concat)
+	if o.ConVal != nil {
+		b.WriteString("=" + o.ConVal.String())
 	}
 	return b.String()
 }
